@@ -9,6 +9,35 @@ import (
 )
 
 func (u *UseCase) Get(ctx context.Context) (model.Dirs, error) {
+	dirs, err := u.snapshot(ctx)
+	if err != nil {
+		return nil, err
+	}
+
+	for i, dir := range dirs {
+		if dir.Count < u.maxCount {
+			continue
+		}
+
+		dirs[i].Count = 0
+		dirs[i].Name = u.nameGen.Generate()
+		err = u.replace(ctx, dir, dirs[i])
+		if err != nil {
+			return nil, err
+		}
+	}
+
+	return dirs, nil
+}
+
+// snapshot makes sure that every root has a directory and returns the directories.
+//
+// It excludes replace: a root is never seen between the removal
+// of its full directory and the creation of the new one.
+func (u *UseCase) snapshot(ctx context.Context) (model.Dirs, error) {
+	u.m.RLock()
+	defer u.m.RUnlock()
+
 	roots, err := u.dRepo.GetRoots(ctx)
 	if err != nil {
 		return nil, fmt.Errorf("get roots: %w", err)
@@ -27,7 +56,6 @@ func (u *UseCase) Get(ctx context.Context) (model.Dirs, error) {
 			return nil, fmt.Errorf("create: %w", err)
 		}
 	}
-
 	vhook.At("dir.get.roots")
 
 	dirs, err := u.dRepo.Get(ctx)
@@ -36,24 +64,24 @@ func (u *UseCase) Get(ctx context.Context) (model.Dirs, error) {
 	}
 	vhook.At("dir.get.snapshot")
 
-	for i, dir := range dirs {
-		if dir.Count < u.maxCount {
-			continue
-		}
+	return dirs, nil
+}
 
-		err = u.dRepo.Remove(ctx, dir)
-		if err != nil {
-			return nil, fmt.Errorf("remove: %w", err)
-		}
-		vhook.At("dir.get.removed")
+// replace takes the full directory out of use and puts a new one in its place.
+func (u *UseCase) replace(ctx context.Context, full, fresh model.Dir) error {
+	u.m.Lock()
+	defer u.m.Unlock()
 
-		dirs[i].Count = 0
-		dirs[i].Name = u.nameGen.Generate()
-		err = u.dRepo.Create(ctx, dirs[i])
-		if err != nil {
-			return nil, fmt.Errorf("create: %w", err)
-		}
+	err := u.dRepo.Remove(ctx, full)
+	if err != nil {
+		return fmt.Errorf("remove: %w", err)
+	}
+	vhook.At("dir.get.removed")
+
+	err = u.dRepo.Create(ctx, fresh)
+	if err != nil {
+		return fmt.Errorf("create: %w", err)
 	}
 
-	return dirs, nil
+	return nil
 }
